@@ -133,8 +133,8 @@ func StarPoly(r *Rng, cx, cy int64, rmin, rmax float64, n int, ccw bool) Path {
 }
 
 // Nested builds clusters of concentric star polygons: ring i lives in the
-// annulus [0.72,0.95]*R_i with R_{i+1} = 0.6*R_i, so rings nest strictly and
-// never touch. Orientation alternates (outer ccw, hole cw, island ccw ...) when
+// annulus [0.72,0.95]*R_i and R_{i+1} is chosen inside the inscribed circle of
+// ring i, so rings nest strictly and never touch. Orientation alternates (outer ccw, hole cw, island ccw ...) when
 // alt is true, else every ring has random orientation. Returned rings are in
 // outer-to-inner order per cluster; depth[i] is the nesting depth of ring i.
 func Nested(r *Rng, clusters int, maxDepth int, R float64, alt bool, flip bool) (ps Paths, depth []int) {
@@ -157,12 +157,17 @@ func Nested(r *Rng, clusters int, maxDepth int, R float64, alt bool, flip bool) 
 				ccw = !ccw
 			}
 			n := 3 + r.Intn(10)
+			if k+1 < d && n < 5 {
+				n = 5 + r.Intn(8) // a ring that holds further rings needs enough vertices to leave room inside
+			}
 			p := StarPoly(r, cx, cy, 0.72*rad, 0.95*rad, n, ccw)
 			if len(p) >= 3 {
 				ps = append(ps, p)
 				depth = append(depth, k)
 			}
-			rad *= 0.6
+			// the chords of this ring stay at least 0.72*rad*cos(1.7*pi/n) from the centre
+			// (consecutive angles differ by at most 1.7*2pi/n): the next ring must fit inside that
+			rad = 0.9 * 0.72 * rad * math.Cos(1.7*math.Pi/float64(n)) / 0.95
 		}
 	}
 	return
